@@ -673,7 +673,8 @@ def run(ctx):
     if is_call(r) and callee_name(r[1]) == "eq":
         a, b = r[2]
         sl, c = (a, b) if a[0] == "index" else (b, a)
-        okm = sl[0] == "index" and sl[1] == ("param", irr.path, 1) and sl[2][0] == "agg" and sl[2][2] == (("int", 0), ("int", len(magic))) and c == ("bytes", magic)
+        okm = sl[0] == "index" and sl[1] == ("param", irr.path, 1) and sl[2][0] == "agg" and c == ("bytes", magic) and \
+            (sl[2][2] == (("int", 0), ("int", len(magic))) or (str(sl[2][1]).endswith("RangeTo::RangeTo") and sl[2][2] == (("int", len(magic)),)))
     if not okm and is_call(r) and callee_name(r[1]) == "starts_with" and len(r[2]) == 2:
         # buf.starts_with(MAGIC) is the same test (and false, not a panic, for inputs shorter than the magic)
         okm = r[2][0] == ("param", irr.path, 1) and r[2][1] == ("bytes", magic)
@@ -691,6 +692,12 @@ def run(ctx):
         # the length word read byte by byte: from_le_bytes([buf[8], buf[9], buf[10], buf[11]])
         if callee_name(t["fn"].get("path", "")) == "from_le_bytes":
             src = le_u32_source(W, nev.call_term(bb))
+            if isinstance(src, tuple) and src and src[0] == "index" and src[1] == ("param", nrr.path, 1) and src[2][0] == "agg":
+                slices.append((str(src[2][1]).split("::")[-1], tuple(x[1] if x[0] == "int" else None for x in src[2][2])))
+    for bb, t in nrr.calls():
+        # the message body handed to the decoder, however it was carved out (`&buf[12..]`, `split_first_chunk`, `split_at`)
+        if strip_generics(t["fn"].get("path", "")).endswith("RtMessage::from_bytes"):
+            src = values.strip_payload(W.expand(nev.call_args(bb)[0]))
             if isinstance(src, tuple) and src and src[0] == "index" and src[1] == ("param", nrr.path, 1) and src[2][0] == "agg":
                 slices.append((str(src[2][1]).split("::")[-1], tuple(x[1] if x[0] == "int" else None for x in src[2][2])))
     want = [("Range", (len(magic), len(magic) + 4)), ("RangeFrom", (len(magic) + 4,))]
